@@ -303,7 +303,7 @@ func main() {
 	ev.Coverage["failing_runs_observed"] = len(failures)
 	ev.Coverage["known_findings_hit"] = knownHits
 	ev.WallS = time.Since(start).Seconds()
-	if err := ev.write(filepath.Join(verifDir, "evidence", prop+".json")); err != nil {
+	if err := ev.write(filepath.Join(envOr("VERIF_EVIDENCE_DIR", filepath.Join(verifDir, "evidence")), prop+".json")); err != nil {
 		fatal2("write evidence: %v", err)
 	}
 	fmt.Printf("%s tier=%s seed=%d: %d runs, %d operations, %d distinct non-trivial cases, %d failing runs, %.1fs\n",
